@@ -1,5 +1,5 @@
 #!/bin/bash
-# usage: work/harmless.sh <name> patch...   all 20 quick checks against /repo HEAD + the given behaviour-preserving patches
+# usage: tools/harmless.sh <name> patch...   all 20 quick checks against /repo HEAD + the given behaviour-preserving patches
 # (scratch worktree + scratch copy of /verif under /dev/shm, removed afterwards); prints non-clean results only
 N=$1; shift
 R=/dev/shm/rharm_$N; V=/dev/shm/vharm_$N
